@@ -266,7 +266,12 @@ func canonUUIDShape(r *core.Rng) []byte {
 			}
 			p := be32(n)
 			for i := 0; i < real; i++ {
-				p = append(p, be32(i+1)...)
+				num := i + 1
+				if r.Chance(1, 4) {
+					// record numbers are file-derived indices: 0, duplicates, just beyond the table, huge
+					num = r.Pick(0, 0, 1, 5, 6, 7, 0x7fffffff, 0x80000000, 0xffffffff)
+				}
+				p = append(p, be32(num)...)
 				p = append(p, beN(r.U64(), 8)...)
 				p = append(p, beN(r.U64(), 8)...)
 			}
